@@ -152,7 +152,7 @@ func (s *sys) letters() []string {
 	for i := 0; i < slots; i++ {
 		if s.mode[i] == 0 {
 			// slots are symmetric: only the lowest closed slot is opened
-			ls = append(ls, fmt.Sprintf("OpenRW:%d", i), fmt.Sprintf("OpenRO:%d", i))
+			ls = append(ls, fmt.Sprintf("OpenRW:%d", i), fmt.Sprintf("OpenRO:%d", i), fmt.Sprintf("OpenMissing:%d", i))
 			if s.headIndexExists() {
 				ls = append(ls, fmt.Sprintf("OpenFailRW:%d", i), fmt.Sprintf("OpenFailRO:%d", i))
 			}
@@ -187,6 +187,16 @@ func (s *sys) apply(letter string) {
 	fmt.Sscan(arg, &i)
 	w := s.w
 	switch kind {
+	case "OpenMissing":
+		// a directory that does not exist, without CreateDirs: must fail, in both modes, and change nothing
+		for _, ro := range []bool{false, true} {
+			o := cfg.Options()
+			o.Readonly = ro
+			if l, err := klevdb.Open(filepath.Join(w.Dir, "missing", "dir"), o); err == nil {
+				s.failf("Open(readonly=%v) of a missing directory without CreateDirs succeeded", ro)
+				_ = l.Close()
+			}
+		}
 	case "OpenFailRW", "OpenFailRO":
 		// index parameters that do not match the head's index file: with Check the
 		// open fails after the lock has been taken and before anything is written
